@@ -561,7 +561,11 @@ def positioned_cases(kind, value, cls, status_rule, variants):
                         for j, h_ in enumerate(base_hops):
                             if j == pos:
                                 continue
-                            right = (n - 1 - j) - (1 if pos > j else 0)
+                            # an EMPTY element of an X-Forwarded-For / -Host list is a hop like any other
+                            # (a trusted proxy that appends nothing usable must not shift the selection to
+                            # the element left of it); other odd elements may or may not be counted
+                            vanish = not (value.strip() == "" and kind in ("x-forwarded-for", "x-forwarded-host"))
+                            right = (n - 1 - j) - (1 if (pos > j and vanish) else 0)
                             if right >= c:
                                 taint += h_["marks"]
                         lines = [[P.NAME[kind], ", ".join(texts)]]
